@@ -26,8 +26,10 @@ Definition item_ids (s : xml) : list (option str) := keys ikey (kids_of s).
 Definition msg_ok (m : xml) : bool :=
   match msg_id_exn m with None => true | Some _ => false end.
 (* carried stories / items carry their ID tag *)
+Definition has_id (tag idtag : str) (x : xml) : bool :=
+  has_tag tag x && match find idtag (kids_of x) with Some _ => true | None => false end.
 Definition carried_ok (tag idtag : str) (l : list xml) : bool :=
-  forallb (fun x => is_keyed (ckey tag idtag) x) l.
+  forallb (has_id tag idtag) l.
 
 Definition schema_ok (k : mclass) (m : xml) : bool :=
   msg_ok m &&
